@@ -215,6 +215,8 @@ def check_escape(run, f, cfg, adt, dialect):
                 run.anchor("C03.R1", "%s:frames" % dialect, "%s; %s" % (e, e2), cfg)
             return
         run.notes.append("%s: write_string_quoted decided by interpretation (%s)" % (dialect, e))
+        from .. import scope
+        scope.check_bound(run, "C03.R1", "%s:scope" % dialect, f, [wname, esc_name], 3, cfg, "%s write_string_quoted / escape_string (strings of length <= 3)" % dialect)
     for pred, prefix, suffix, ok_inner, esc_callee in frames:
         run.ob("C03.R1", "%s:frame:%s" % (dialect, prefix), ok_inner,
                "%s: the text between %r and %r is escape_string applied to the function's own string argument" % (dialect, prefix, suffix),
@@ -315,6 +317,8 @@ def bytes_by_interp(run, f, cfg, name, dialect, want):
     except (Unsupported, Diverged) as e:
         run.notes.append("C03.R5 %s write_bytes outside the interpreter's fragment (%s): decided by its shape" % (dialect, e))
         return False
+    from .. import scope
+    scope.check_bound(run, "C03.R5", "%s:write_bytes:scope" % dialect, f, [name], 4, cfg, "%s write_bytes (byte strings of length <= 4)" % dialect)
     run.ob("C03.R5", "%s:write_bytes" % dialect, not bad,
            "%s: bytes are written as %s + two upper-case hex digits per byte of the argument, in order + %s (interpreted on %d byte strings)%s" % (
                dialect, want["prefix"], want["suffix"], len(probes), "" if not bad else " - NOT: " + "; ".join(bad[:3])), sp=fn["sp"], cfg=cfg)
